@@ -169,22 +169,23 @@ def step265 (p : P265) (au : AU) : P265 × Outcome AU :=
 def step265Fixed (p : P265) (au : AU) : P265 × Outcome AU :=
   if hasEmpty au then (p, .panic) else let p' := upd265Fixed p au; (p', remux265 p' au)
 
-def run264 (p : P264) : List AU → P264 × List (Outcome AU)
-  | [] => (p, [])
-  | au :: r => let s := step264 p au; let t := run264 s.1 r; (t.1, s.2 :: t.2)
+/-- run a whole history of access units, collecting the delivered payloads (a panic would end the
+process; the model keeps the state and goes on, as the recovering harness does). -/
+def runG {σ : Type} (step : σ → AU → σ × Outcome AU) : σ → List AU → σ × List (Outcome AU)
+  | p, [] => (p, [])
+  | p, au :: r => let s := step p au; let t := runG step s.1 r; (t.1, s.2 :: t.2)
 
-def run265 (p : P265) : List AU → P265 × List (Outcome AU)
-  | [] => (p, [])
-  | au :: r => let s := step265 p au; let t := run265 s.1 r; (t.1, s.2 :: t.2)
+def run264 := runG step264
+def run265 := runG step265
+def run265Fixed := runG step265Fixed
 
-def run265Fixed (p : P265) : List AU → P265 × List (Outcome AU)
-  | [] => (p, [])
-  | au :: r => let s := step265Fixed p au; let t := run265Fixed s.1 r; (t.1, s.2 :: t.2)
+/-- `good` holds at every step of the history (state taken along the run). -/
+def goodRun {σ : Type} (good : σ → AU → Bool) (step : σ → AU → σ × Outcome AU) : σ → List AU → Bool
+  | _, [] => true
+  | p, au :: r => good p au && goodRun good step (step p au).1 r
 
 /-- no step of the history is in the F-C22 class (evaluated along the run of the code as written). -/
-def noStaleRun (p : P265) : List AU → Bool
-  | [] => true
-  | au :: r => !stale265 p au && noStaleRun (upd265 p au) r
+def noStaleRun (p : P265) (aus : List AU) : Bool := goodRun (fun p au => !stale265 p au) step265 p aus
 
 /-! ### MPEG-4 Video (byte level) -/
 
